@@ -12,8 +12,10 @@ oracle (implementation only, no Lean):
                    LocalBuilder._downloadPackage + LocalArchive: either the download fails, or the accepted result is
                    hash-identical to what was packed and carries the same audit.
 correspond: the hostile archives of (ii) (same generator, other sub-seed) through the Lean model `drv_c08`
-            (Model/TarExtract.lean): outcome kind and the complete resulting tree of the jail are compared;
-            the acceptance decisions of (iii) against the model of the builder's verification.
+            (Model/TarExtract.lean, dispatch `Cfg.current` = what tools/consts/c08.py finds in the source): outcome kind and the
+            complete resulting tree of the jail (names, types, modes, contents, link targets, hard link groups) are compared;
+            the member lists of real `_pack` runs against `packMembers`/`dispatch`; the acceptance decisions of (iii) against
+            `acceptDownload`.
 """
 import contextlib
 import gzip
@@ -941,7 +943,7 @@ def members_as_read(data):
     return out, vsn
 
 
-def correspond_hostile(ctx, n, batch=1500):
+def correspond_hostile(ctx, n, batch=500):
     import time
     r = ctx.subrng("corr-hostile")
     base = os.path.join(scratch_dir(ctx), "jail-corr")
@@ -951,7 +953,7 @@ def correspond_hostile(ctx, n, batch=1500):
         reqs, impls, cases = [], [], []
         stop = False
         for i in range(min(batch, n - done)):
-            if time.time() > phase_deadline(ctx, 0.93) and done + i >= 150:
+            if time.time() > phase_deadline(ctx, 0.86) and done + i >= 150:
                 if done + i < n // 3:
                     ctx.skip("hostile correspondence stopped after %d archives (time budget / machine load)" % (done + i))
                 stop = True
@@ -1021,7 +1023,7 @@ def correspond_accept(ctx):
     reqs, sel = [], []
     for res in results:
         o = res["obs"]
-        if res["out"] == "failed:_Timeout":
+        if res["out"] == "failed:_Timeout" or res["spec"][0] == "setup":
             continue
         if o["wasDownloaded"] and o["auditExists"] and (o["auditHash"] == "unreadable" or res["out"] == "rejected:auditUnreadable"
                                                           or res["out"].startswith("failed:")):
@@ -1060,7 +1062,12 @@ def correspond_namespace(ctx, n):
         with open(audit, "wb") as f:
             f.write(b"A")
         buf = io.BytesIO()
-        TarHelper()._pack(None, buf, audit, src)
+        try:
+            TarHelper()._pack(None, buf, audit, src)
+        except Exception as e:  # noqa
+            ctx.disagree("TarHelper._pack member list == Model.packMembers", {"kind": "namespace", "index": i},
+                         "%s: %s" % (type(e).__name__, str(e)[-160:]), "member list")
+            continue
         names, _ = read_names(buf.getvalue())
         if any(ord(ch) > 0xffff for nm in names for ch in nm[0] + nm[2]) or any(t == "?" for _, t, _ in names):
             continue
@@ -1176,6 +1183,15 @@ def small_tree(r, root):
     fs = [os.path.join(dp, f) for dp, _, fl in os.walk(root) for f in fl if not os.path.islink(os.path.join(dp, f))]
     if fs:
         os.link(fs[0], os.path.join(root, "hard"))
+    fix_times(root)
+
+
+def fix_times(root):
+    """integer time stamps everywhere: the artifact bytes (and with them every truncation / flip position) replay exactly"""
+    for dp, dn, fl in os.walk(root, topdown=False):
+        for n in fl + dn:
+            os.utime(os.path.join(dp, n), ns=(10 ** 18, 10 ** 18), follow_symlinks=False)
+    os.utime(root, ns=(10 ** 18, 10 ** 18))
 
 
 def audit_semantic(path):
@@ -1225,16 +1241,29 @@ def corruption_worker(job):
             h = hashDirectory(src)
             vid, bid = bytes(r.getrandbits(8) for _ in range(20)), bytes(r.getrandbits(8) for _ in range(20))
             audit_src = os.path.join(wdir, "src", "audit.json.gz")
+            import bob.audit
+            import datetime as _dt
+
+            class _FixedNow(_dt.datetime):
+                @classmethod
+                def now(cls, tz=None):
+                    return _dt.datetime(2020, 1, 1, tzinfo=tz)
+            bob.audit.datetime = _FixedNow          # only in this forked worker: same audit bytes on every run
             Audit.create(vid, bid, h).save(audit_src)
+            os.utime(audit_src, ns=(10 ** 18, 10 ** 18))
             audit_sem = audit_semantic(audit_src)
             ex = _SyncExecutor()
             arch = LocalArchive({"path": os.path.join(wdir, "archive"), "flags": ["download", "upload"]})
             arch.wantUploadLocal(True)
             arch.wantDownloadLocal(True)
-            runInEventLoop(arch.uploadPackage(_Step(src, vid), bid, audit_src, src, executor=ex))
             art_path = arch._remoteName(bid, ".tgz")
-            with open(art_path, "rb") as f:
-                art = f.read()
+            try:
+                runInEventLoop(arch.uploadPackage(_Step(src, vid), bid, audit_src, src, executor=ex))
+                with open(art_path, "rb") as f:
+                    art = f.read()
+            except Exception as e:  # noqa - the upload of an ordinary small tree must work
+                return [{"spec": ["setup"], "tree_seed": tree_seed, "out": "upload-failed:%s: %s" % (type(e).__name__, str(e)[-160:]),
+                         "obs": {}, "identical": True, "tree_ok": False, "audit_ok": False, "recorded": None, "expect": h.hex(), "len": 0, "secs": 0}]
             # a second tree / audit for mismatching combinations
             src2 = os.path.join(wdir, "src2", "workspace")
             os.makedirs(os.path.dirname(src2))
@@ -1300,7 +1329,7 @@ def corruption_worker(job):
                 raise AssertionError(spec)
 
             for n, spec in enumerate(specs):
-                if deadline is not None and __import__("time").time() > deadline:
+                if deadline is not None and __import__("time").time() > deadline - 2:
                     break
                 data = variant(spec)
                 if data is None:
@@ -1309,7 +1338,7 @@ def corruption_worker(job):
                     f.write(data)
                 ws = os.path.join(wdir, "work", "pkg", "dist", str(n), "workspace")
                 audit = os.path.join(os.path.dirname(ws), "audit.json.gz")
-                if spec[0] == "no-audit" or (spec[0] in ("truncfrac", "flipfrac") and n % 7 == 0):
+                if spec[0] == "no-audit" or (spec[0] in ("truncfrac", "flipfrac") and __import__("zlib").crc32(repr(list(spec)).encode()) % 7 == 0):
                     # a stale audit trail of an earlier download must not validate anything
                     os.makedirs(os.path.dirname(ws))
                     shutil.copy(audit_src, audit)
@@ -1377,6 +1406,9 @@ def corruption_jobs(ctx, tag):
 def judge_corruption(ctx, res, tag):
     """oracle (iii) on one result of the download path"""
     out, spec = res["out"], res["spec"]
+    if spec[0] == "setup":
+        ctx.violation("uploadPackage/_pack failed on a small ordinary tree: " + out, res, "fidelity-pack-error")
+        return
     if out == "failed:_Timeout":
         ctx.skip("a download run hit the 30 s limit (machine load)")
         return
@@ -1411,7 +1443,7 @@ def phase_deadline(ctx, frac):
     return st + avail * frac
 
 
-def oracle_corruption(ctx, tag="corruption", frac=0.60):
+def oracle_corruption(ctx, tag="corruption", frac=0.56):
     """forked workers (own cwd / BobState each); stops at the phase deadline and records what was not run"""
     import multiprocessing as mp
     import time
@@ -1425,7 +1457,7 @@ def oracle_corruption(ctx, tag="corruption", frac=0.60):
         it = pool.imap_unordered(corruption_worker, jobs, chunksize=1)
         for _ in jobs:
             try:
-                results = it.next(timeout=max(1.0, deadline + 10 - time.time()))
+                results = it.next(timeout=max(1.0, deadline + 6 - time.time()))
             except mp.TimeoutError:
                 pool.terminate()
                 break
